@@ -1,7 +1,7 @@
 //@ unit: gradual_len_v
 //@ assume: opaque external types for the fields `len()` does not read; R4: Box<[T]> fields verified as Vec<T>
 //@ assume: A-INV: mania: objects_is_circle.len() >= diff_objects.len()+1 when the map has objects (equal without a passed_objects limit), idx <= diff_objects.len()+1, empty map ==> idx == 0; taiko: idx <= total_hits (healthy class, see F3/F4) - established by `new`, not proved
-//@ obl: id=U12.mania.len.verus fn=ManiaGradualDifficulty::len props=C15,C05 tier=quick kind=proof twin=yes pair=U12.mania.protocol.n1
+//@ obl: id=U12.mania.len.verus fn=ManiaGradualDifficulty::len props=C15,C05 tier=quick kind=proof twin=yes pair=U12.mania.protocol.limited
 //@ fns: ManiaGradualDifficulty::len (ExactSizeIterator::len)
 //@ bound: unbounded: every object count and position
 //@ clause: for ALL N: under the invariant len() == number of difficulty objects + 1 - idx (the values still to come), 0 for maps without objects; no underflow / overflow
